@@ -463,6 +463,7 @@ type loopEffects struct {
 	heapKeys  map[string]bool
 	all       bool             // unknown call: everything
 	written   map[string][]Term // key -> objects (obj terms) written, only loop-invariant ones
+	writtenLoc map[string][]Term // key -> exact cells written (address loop-invariant)
 	variant   map[string]bool  // key has writes through loop-variant objects
 	ghost     map[string]bool
 	allocs    bool
@@ -838,7 +839,7 @@ func (fr *Frame) discoverEffects(body func(sub edgeMap), base *State, recFrame *
 	}
 	savedExits := len(fr.exits)
 	u.depth++
-	eff := &loopEffects{heapKeys: map[string]bool{}, written: map[string][]Term{}, variant: map[string]bool{}, ghost: map[string]bool{}}
+	eff := &loopEffects{heapKeys: map[string]bool{}, written: map[string][]Term{}, writtenLoc: map[string][]Term{}, variant: map[string]bool{}, ghost: map[string]bool{}}
 	prevRec := u.rec
 	rec := &writeRecorder{mark: mark, eff: eff, frame: recFrame, body: region, isCallback: isCallback}
 	u.rec = rec
@@ -930,6 +931,9 @@ func (fr *Frame) applyHavoc(st, base *State, eff *loopEffects) {
 				var conds []Term
 				for _, o := range eff.written[k] {
 					conds = append(conds, Neq(Obj(l), o))
+				}
+				for _, a := range eff.writtenLoc[k] {
+					conds = append(conds, Neq(l, a))
 				}
 				conds = append(conds, Le(Obj(l), base.alloc))
 				u.assume(True, Forall([]Term{l}, Implies(And(conds...), Eq(Select(h, l, vs), Select(old, l, vs))), []Term{Select(h, l, vs)}))
